@@ -1,6 +1,6 @@
 CONFIG = dict(
     id="C08",
-    engine="pure (white-box shim mapped into package etcd with `go test -overlay`; nothing under /repo is modified)",
+    engine="pure (the etcd provider is driven through its exported API only - NewWithConfig, StartMember, StartClient, UpdateClusterState, Shutdown and the cluster.ICluster callback it publishes to - on in-memory clientv3 KV/Lease/Watcher stand-ins plugged in by field TYPE; no overlay shim, no unexported identifier of package etcd is named; nothing under /repo is modified)",
     technique="Lean 4 theorems (refinement of the batched watch fold to the one-event-at-a-time semantics for every batching; "
               "machine invariant for self presence; MakeMembers against a declarative specification; interleaving model of field "
               "stores vs. a getter's single load; invariant 'member map + pending events = store' of the provider in front of a model of the etcd store, "
@@ -20,7 +20,7 @@ CONFIG = dict(
                "generated histories (every history of <=2 events quick / <=4 events thorough over a 10-event alphabet under every batching, "
                "random histories over 3-4 nodes incl. self, malformed streams; scripts of store writes / gap writes / deliveries / watch failures against the real StartMember and StartClient) and the property predicate is evaluated on the member lists "
                "the real provider publishes and on the answers of the real directory.",
-    level_note="Trusted: Lean kernel; the harness/driver line protocol and canonicalisation (published lists and query answers sorted; a name listed "
+    level_note="Tie to the code: black-box with respect to package etcd (exported API + stand-ins located by field type; robust against renaming/moving/splitting of unexported identifiers), syntactic facts by a go/ast extractor that keys on exported names, types and data flow only (directory fields are named by the position of the builder result stored into them, the Cluster's directory field by its type *ClusterServices). Trusted: Lean kernel; the harness/driver line protocol and canonicalisation (published lists and query answers sorted; a name listed "
                "more than once rendered as dup<k>); the Go memory model for the unsynchronised pointer-sized field stores (modelled as atomic steps); "
                "etcd's documented semantics as implemented by the in-memory store of the harness (PUT always an event, DELETE only of an existing key, a watch without start revision begins at the current revision, WithRev replays the log); encoding/json (validated by the differential run). The theorems are about the model; the differential "
                "run ties it to the code on sampled inputs only.",
@@ -42,7 +42,6 @@ CONFIG = dict(
                        "helper_queries_single_getter", "helper_query_sees_whole_view", "working_items_have_no_pid",
                        "double_load_without_store_between_is_whole", "double_load_equal_field_is_whole", "double_load_of_one_field_can_mix", "failed_registration_leaves_live_watcher"],
     harness_pkg="./c08",
-    go_flags=["-overlay=/verif/harness/c08/overlay/overlay.json"],
     mode="diff",
     reset_prefix="reset",
     runs={
@@ -55,7 +54,7 @@ CONFIG = dict(
     rule="op lines generated from one PRNG (VERIF_SEED). Cases start with `reset` (own node) and usually `list` (initial listing: subsets of 3-4 "
          "node ids incl. a stale copy of self, duplicates, dead nodes). Histories of 1-6 events (PUT with changed state/services/address, "
          "alive=false, about self; DELETE of known/unknown/self; invalid JSON of six kinds; unknown event type; rarely key/id mismatches and odd "
-         "keys) are delivered through the real _keepWatching under several batchings of the same history (one case each), followed by longer "
+         "keys) are delivered to the real provider's own watch loop (started by the exported StartMember; the in-memory Watcher hands the responses over as one completely queued stream) under several batchings of the same history (one case each), followed by longer "
          "lives with own state changes, empty responses and failed responses; every history of <= VERIF_EXH events over a 10-event alphabet is "
          "run under every batching against two listings (exhaustive). After publications the real app.Cluster, fed by the provider, is queried "
          "(GetMembers, GetServiceList, GetWorkServiceList, GetService, GetWorkServiceNames for all types and a name universe); `mk` ops build "
@@ -70,7 +69,9 @@ CONFIG = dict(
         "Lean 4.33.0 kernel; axioms of every property theorem audited on each run (allowed: propext, Classical.choice, Quot.sound)",
         "hand-written model lean/Cell2v/Model/Directory.lean tied to the Go code by the differential run of this check (harness/c08 + modeld_c08)",
         "go/ast extractor harness/c08/extract (syntax only) regenerating lean/Cell2v/Gen/C08Facts.lean; theorem getter_facts_match_source is re-checked against it on every run",
-        "white-box shim harness/c08/overlay/export_verif.go (one-line accessors: provider without etcd client, init, updateNodesWithSelf+publish, _keepWatching on an injected channel)",
+        "no white-box shim: harness/c08/provider_test.go builds the provider with the exported etcd.NewWithConfig (real client closed at once; further providers are copies of that never-started value with fresh maps/channels, by kind; fallback: NewWithConfig each time) and replaces its client by locating the ONE field of type *clientv3.Client with reflect+unsafe, presets the ONE field of type clientv3.LeaseID; unexported names, files and the split of package etcd into methods are free to change. What must stay: the exported API, one *clientv3.Client field and one clientv3.LeaseID field in Provider, the client being used through its KV/Lease/Watcher interfaces",
+        "the fold stream is re-expressed through the exported path, same op lines and observations as before: `reset` = StartMember of a throw-away provider on an empty store (init error, or the node itself published); `list` = StartMember with the listing returned by the in-memory KV's Get (so fetchNodes runs too); `watch` = the responses handed to the provider's own watch goroutine as one completely queued stream by the in-memory Watcher, `ret=err` = the loop opened a new watch while the stream was still open, `ret=ok` = it consumed all of it (the stream is closed afterwards); a `watch` without `list` = StartClient on an empty store whose publication of the empty listing is not recorded; a `state` op before the start is what ICluster.GetState() answers at the start. The provider of a case lives in one long-lived synctest bubble (deliver, synctest.Wait, observe)",
+        "a panic of the code under test on the provider's own goroutines (watch loop, keep-alive loop) ends the harness process (reported by bin/check as harness exit after the last op) instead of being mapped to the observation `panic`",
         "harness canonicalisation: published member lists and directory answers sorted; a service name listed more than once resolves to an arbitrary item in the code (Go map order) and is rendered dup<k>;in|out; a directory built from a published list with duplicate member ids (reachable only with key/id mismatches) is not queried",
         "in-memory stand-ins for clientv3 KV/Lease/Watcher (harness/c08) used by the `start` op; testing/synctest (go1.26) virtualises the 500 ms hold",
         "in-memory revisioned store + watch sessions (harness/c08 memStore) used by the `sys` op: etcd's documented semantics only; the provider's own Put calls wait until the first watch exists (one of the possible schedules of StartMember: watch goroutine before registerService); KeepAlive answers only on a `K` step; Revoke deletes the keys the provider wrote; mode=regfail: every Put of the provider is refused (after the first watch exists)",
